@@ -1327,3 +1327,34 @@ def check_bigint_endianness(ctx, P, rule, crates=('erltf', 'erltf_serde', 'edp_e
         else:
             ctx.ok(rule, base, 'little-endian digit handling (%s)' % '; '.join(sorted({v[3] for v in verdicts})), ctx.where(verdicts[0][1], verdicts[0][2]))
     return n
+
+
+# ---------------------------------------------------------------- newtype wrappers ----
+def check_newtype_verbatim(ctx, P, rule, types):
+    """`types`: full paths of tuple newtypes over an integer (edp_client::types::Creation, ::SequenceId). Every function that
+    builds one from an integer parameter stores the parameter unchanged (no mask, shift, arithmetic or narrowing cast),
+    or delegates to another constructor of the type with the parameter unchanged."""
+    n = 0
+    for ty in types:
+        fns = sorted(q for q in P.F.bodies if P.F.bodies[q]['kind'] in ('Fn', 'AssocFn') and (q.startswith(ty + '::') or (q.startswith('<' + ty + ' as ') and 'From<' in q)))
+        for q in fns:
+            B = P.B(q)
+            for bb, j, st in B.stmts():
+                if not (st['k'] == '=' and st['rv']['k'] == 'agg' and st['rv'].get('adt') == ty and st['rv']['ops']):
+                    continue
+                n += 1
+                c = canon(B, st['rv']['ops'][0])
+                cur = c
+                narrowing = False
+                while isinstance(cur, tuple) and cur and cur[0] == 'cast':
+                    cur = cur[-1] if isinstance(cur[-1], tuple) else cur[1]
+                inst = '%s:%s' % (ty.rsplit('::', 1)[1], q.rsplit('::', 1)[1] if not q.startswith('<') else 'From')
+                if isinstance(cur, tuple) and cur and cur[0] == 'arg':
+                    ctx.ok(rule, inst, 'stores its argument unchanged', ctx.where(B, bb))
+                elif isinstance(cur, tuple) and cur and cur[0] in ('bin', 'un'):
+                    ctx.bad(rule, inst, '%s does not store the value it is given but %s: different inputs yield the same %s' % (q.rsplit('::', 1)[1], describe(B, c), ty.rsplit('::', 1)[1]),
+                            ctx.where(B, bb), key='PROV:%s:value-modified' % q)
+                else:
+                    ctx.undecided(rule, inst, 'stored value %s not recognised' % describe(B, c))
+            n += check_casts(ctx, B, rule, include_float=False)
+    return n
